@@ -616,7 +616,8 @@ class Builder:
 
 
 def choice_lists(min_size: int = 16, max_size: int = 160):
-    return st.lists(st.integers(0, 255), min_size=min_size, max_size=max_size)
+    """Choice sequences as byte strings (one cheap draw; shrinks towards shorter strings and smaller bytes)."""
+    return st.binary(min_size=min_size, max_size=max_size)
 
 
 # ----------------------------------------------------------------------------- steering (construction, not filtering)
@@ -633,15 +634,18 @@ def is_sole_genexp_arg(parent, child) -> bool:
     return isinstance(parent, ast.Call) and len(parent.args) == 1 and parent.args[0] is child and not parent.keywords and isinstance(child, ast.GeneratorExp)
 
 
-def needs_parens_sites(tree) -> list:
-    """Sites where the text needs parentheses that the operand does not bring itself."""
+def needs_parens_sites(tree, generators: bool = False) -> list:
+    """Sites where the text needs parentheses because of operator precedence (the operand does not bring them
+    itself). generators=True: the sites of generator expressions instead (always parenthesised, except as the
+    sole argument of a call)."""
     out = []
     for parent, field, child in paren_sites(tree):
         if isinstance(child, SELF_PARENTHESISED) or is_sole_genexp_arg(parent, child):
             continue
         if isinstance(child, ast.Constant):
             continue  # the `1 .real` site, see int_receiver_sites
-        out.append((parent, field, child))
+        if isinstance(child, ast.GeneratorExp) == generators:
+            out.append((parent, field, child))
     return out
 
 
@@ -659,7 +663,7 @@ def steer(model: dict, lit: str, sw: dict) -> dict:
     if sw.get("no-operand-parens"):
         for _parent, _field, child in needs_parens_sites(tree):
             m = getattr(child, "_m", None)
-            if m is not None and m is not model:
+            if m is not None:
                 replace_model(m, PLACEHOLDER)
                 counts["no-operand-parens"] = counts.get("no-operand-parens", 0) + 1
     if sw.get("no-int-receiver"):
@@ -668,15 +672,4 @@ def steer(model: dict, lit: str, sw: dict) -> dict:
             if m is not None:
                 replace_model(m, PLACEHOLDER)
                 counts["no-int-receiver"] = counts.get("no-int-receiver", 0) + 1
-    if sw.get("no-operand-parens"):
-        # a bare generator expression at the root (of the expression or of a string annotation that is the whole
-        # annotation): keep it, as the sole argument of a call
-        root = model
-        while root["t"] == "Code" and root.get("e") is not None:
-            root = root["e"]
-        if root["t"] == "GenExp":
-            inner = dict(root)
-            root.clear()
-            root.update({"t": "Call", "f": copy.deepcopy(PLACEHOLDER), "args": [inner], "kws": []})
-            counts["no-operand-parens"] = counts.get("no-operand-parens", 0) + 1
     return counts
